@@ -14,8 +14,10 @@ import (
 )
 
 // FixedTables is the table universe of spec/PruneGen.tla:
-// T1 = {b1,b2}, T2 = {b2,b3}, T3 = {b4}; b2 is shared.
-var FixedTables = map[int][]int{1: {1, 2}, 2: {2, 3}, 3: {4}}
+// T1 = {b1,b2}, T2 = {b2,b3}, T3 = {b4}; b2 is shared.  T4 lists T1's blocks under another primary key:
+// the same two block objects, two block indices of its own (101, 102).
+var FixedTables = map[int][]int{1: {1, 2}, 2: {2, 3}, 3: {4}, 4: {1, 2}}
+var FixedKV = map[int]int{4: 1}
 
 var (
 	fixedOnce sync.Once
@@ -25,12 +27,17 @@ var (
 
 func fixedUniverse() (*Universe, error) {
 	fixedOnce.Do(func() {
-		fixedU, fixedErr = BuildUniverse(FixedTables)
+		fixedU, fixedErr = BuildUniverse(FixedTables, FixedKV)
 		if fixedErr == nil {
 			// sharing must be genuine: T1's second block IS T2's first block
 			t1, t2 := fixedU.Tables[1], fixedU.Tables[2]
 			if string(t1.BlockSum[1]) != string(t2.BlockSum[0]) || string(t1.IdxSum[1]) != string(t2.IdxSum[0]) {
 				fixedErr = fmt.Errorf("T1 and T2 do not share block b2 in the real store")
+			}
+			t4 := fixedU.Tables[4]
+			if string(t1.BlockSum[0]) != string(t4.BlockSum[0]) || string(t1.BlockSum[1]) != string(t4.BlockSum[1]) ||
+				string(t1.IdxSum[0]) == string(t4.IdxSum[0]) || string(t1.IdxSum[1]) == string(t4.IdxSum[1]) {
+				fixedErr = fmt.Errorf("T4 does not list T1's blocks with block indices of its own in the real store")
 			}
 		}
 	})
@@ -192,6 +199,14 @@ func classOf(sc *Scenario, rs []refSpec) string {
 	}
 	if len(sc.SS) > 0 {
 		c += "+shallow-survivor"
+	}
+	// one block object under two primary keys (two block indices), one of the two tables removed or both kept
+	if has(sc.Tab, 1) && has(sc.Tab, 4) && !has(sc.Abs, 1) && !has(sc.Abs, 4) {
+		if has(sc.Mnot.T, 1) || has(sc.Mnot.T, 4) {
+			c += "+key-twin-removed"
+		} else {
+			c += "+key-twins-kept"
+		}
 	}
 	for _, r := range rs {
 		if r.Kind == "txn" {
